@@ -6,10 +6,15 @@ Model driver for C03 (exe model_c03).  One op per line:
                      or `err:length_error` (a builder's length check throws)
   xmlmon <hex>     XML document → tokenizer → builder-protocol monitor (Model/HostileXml.lean)
                    → `fine` | `ub:<kind>` | `tokerr` (outside the tokenizer's domain)
+  oplcur <hex>     one OPL line (`-` = empty): the cursor program over the memory (Model/HostileOpl.lean,
+                   `parseLineCur {}`) against the abstract line parser (`OplFmt.parseLine {}`)
+                   → `same` | `DIFF cur=<class> abs=<class>`,
+                     class ∈ ok-none / ok-some / err:opl / err:location / err:length / err:fuel
 -/
 import Driver.Common
 import Osmium.Model.HostileLayout
 import Osmium.Model.HostileXml
+import Osmium.Model.HostileOpl
 
 open Osmium Osmium.HostileLayout Osmium.Layout
 
@@ -111,6 +116,25 @@ def xmlmon (doc : Bytes) : String :=
     | none => "fine"
     | some m => m.name
 
+/-- `Except` has no `DecidableEq` instance -/
+def sameRes : Except OplFmt.PErr (Option Osm.Object) → Except OplFmt.PErr (Option Osm.Object) → Bool
+  | .ok a, .ok b => decide (a = b)
+  | .error a, .error b => decide (a = b)
+  | _, _ => false
+
+def oplClass : Except OplFmt.PErr (Option Osm.Object) → String
+  | .ok none => "ok-none"
+  | .ok (some _) => "ok-some"
+  | .error .opl => "err:opl"
+  | .error .location => "err:location"
+  | .error .length => "err:length"
+  | .error .fuel => "err:fuel"
+
+def oplcur (line : Bytes) : String :=
+  let cur := HostileOpl.parseLineCur {} line
+  let abs := OplFmt.parseLine {} line
+  if sameRes cur abs then "same" else "DIFF cur=" ++ oplClass cur ++ " abs=" ++ oplClass abs
+
 def step (line : String) : String :=
   match Driver.words line with
   | "lay" :: ws =>
@@ -128,6 +152,10 @@ def step (line : String) : String :=
   | ["xmlmon", h] =>
     match Driver.unhex h with
     | some bs => xmlmon bs
+    | none => "bad-op"
+  | ["oplcur", h] =>
+    match Driver.unhex h with
+    | some bs => oplcur bs
     | none => "bad-op"
   | _ => "bad-op"
 
